@@ -94,7 +94,7 @@ def norm(src):
 # (walrus / arithmetic in a subscript, keyword call, slice) varname may legitimately be None
 SUPPORTED = {"maybe_attr", "maybe_sub", "maybe_unpack", "name", "attr", "sub", "subname", "tuple", "star", "call_sub", "nested_attr", "list", "nested_unpack",
              "star_mid", "sub_chain", "attr_sub", "call_args", "star_first", "tuple_attr_sub", "global_name", "call_local",
-             "sub_ellipsis"}
+             "sub_ellipsis", "call_noargs"}
 
 
 def varname_ok(varname, meta, m, frame):
@@ -646,6 +646,10 @@ def kwget(k=0):
     return S.dct
 
 
+def getdct():
+    return S.dct
+
+
 def pick(d, a, b):
     return d[a]
 
@@ -721,6 +725,8 @@ class R:
             return "pick(dct, 'sub', key)['k%d']" % k, None
         if form == "call_local":
             return "lpick(dct, 'sub', key)['k%d']" % k, None
+        if form == "call_noargs":
+            return ["getdct()['k%d']" % k, "lgetdct()['k%d']" % k, "ns.getdct()['k%d']" % k][k % 3], None
         if form == "sub_ellipsis":
             return "dct[...]", None
         if form == "open_slice":
@@ -929,8 +935,8 @@ class R:
             if it.get("exitname") == "Eq":
                 # a different object that compares equal to the manager, held in a local that comes early in f_locals
                 self.emit(1, "eqdecoy%d = MEq(%d)" % (it["m"], it["m"]))
-        self.emit(1, "lpick = pick")
-        self.emit(1, "ns = NS(); ns.sub = NS(); ns.sub.slots = {}; dct = S.dct; key = 'kk'; lst = [0, 1, 2, 3]; "
+        self.emit(1, "lpick = pick; lgetdct = getdct")
+        self.emit(1, "ns = NS(); ns.getdct = getdct; ns.sub = NS(); ns.sub.slots = {}; dct = S.dct; key = 'kk'; lst = [0, 1, 2, 3]; "
                      "grid = [[0, 0], [0, 0]]")
         if any(str(it.get("target", "")).startswith("maybe_") for it in _all_items(self.p["body"])):
             # bound on every path that is ever taken, but not provably so
@@ -1101,7 +1107,7 @@ def compile_program(prog):
     fname = "<g1-prog>"
     linecache.cache[fname] = (len(src), None, src.splitlines(True), fname)
     ns = {"M": M, "AM": AM, "MAlias": MAlias, "AMAlias": AMAlias, "MDeco": MDeco, "AMDeco": AMDeco, "MDual": MDual, "AMDual": AMDual, "MEq": MEq, "AMEq": AMEq, "E1": E1, "E2": E2, "NS": NS, "trap": trap, "probe": probe, "cprobe": functools.partial(probe), "noop": noop,
-          "FR": S.fr, "sys": sys, "tick": tick, "S": S, "kwget": kwget, "pick": pick, "GV": None,
+          "FR": S.fr, "sys": sys, "tick": tick, "S": S, "kwget": kwget, "pick": pick, "getdct": getdct, "GV": None,
           "__name__": "g1prog"}
     with warnings.catch_warnings():
         warnings.simplefilter("ignore")  # SyntaxWarning: 'return' in a 'finally' block etc.
